@@ -84,3 +84,32 @@ Theorem C02_mixed_histories : forall l u f x', xrun l (mkX init u f) = Some x' -
   Inv2a (st x') /\ InvK (st x').
 Proof. intros l u f x' E. pose proof (xrun_inv l u f x' E) as H. split; [apply (inv_r _ H)|apply (inv_k _ H)]. Qed.
 Print Assumptions C02_mixed_histories.
+
+(* ... and over histories in which clone() is called on ANY element (netlist, library, definition, port,
+   cable, wire, pin, instance), mixed with editing calls, uniquify and flatten (Proofs/XHistAll.v) *)
+From Coq Require Import NArith.
+From SV Require Import Proofs.CloneNetInv Proofs.XHistAll.
+Theorem C02_all_mixed_histories : forall l u f x', xrun_all l (mkX init u f) = Some x' ->
+  Inv2a (st x') /\ InvK (st x').
+Proof. intros l u f x' E. pose proof (xrun_all_inv l u f x' E) as H. split; [apply (inv_r _ H)|apply (inv_k _ H)]. Qed.
+Print Assumptions C02_all_mixed_histories.
+
+(* non-vacuity: edits, Netlist.clone, Library.clone, Port.clone, an edit of the copy (a new instance 39 of the copied
+   leaf definition 15 in the copied top definition 22), uniquify of the copy (instance 23 gets its own definition 40,
+   whose child 43 is registered with 15); the reference sets and the outer-pin table of the new instance follow *)
+Example C02_all_mixed_sample :
+  let ops := (ONew KNetlist None nil :: OCreate RLibs 0 None nil 0 None :: OCreate RDefs 1 (Some (76%N :: nil)) nil 0 None ::
+              OCreate RPorts 2 (Some (112%N :: nil)) nil 1 None :: OCreate RDefs 1 (Some (77%N :: nil)) nil 0 None ::
+              OCreate RChildren 5 (Some (105%N :: nil)) nil 0 (Some 2) :: OCreate RCables 5 (Some (99%N :: nil)) nil 1 None ::
+              OConnect 8 (POut 6 4) None :: OCreate RDefs 1 (Some (84%N :: nil)) nil 0 None ::
+              OCreate RChildren 9 (Some (97%N :: nil)) nil 0 (Some 5) :: OCreate RChildren 9 (Some (98%N :: nil)) nil 0 (Some 5) ::
+              OSetTop 0 (TopDef 9) :: nil) in
+  let h := (map YEdit ops ++ YClone 0 :: YClone 1 :: YClone 3 ::
+            YEdit (OCreate RChildren 22 (Some (110%N :: nil)) nil 0 (Some 15)) :: YUniquify 20 13 :: nil)%list in
+  match xrun_all h (mkX init 0 0) with
+  | Some x => next (st x) = 44 /\ drefs (st x) 2 = (6 :: nil) /\ drefs (st x) 15 = (21 :: 39 :: 43 :: nil) /\ iref (st x) 39 = Some 15 /\
+              ipins (st x) 39 = ((17, None) :: nil) /\ drefs (st x) 18 = (24 :: nil) /\ iref (st x) 23 = Some 40 /\
+              drefs (st x) 5 = (10 :: 11 :: nil) /\ kids (st x) RChildren 22 = (23 :: 24 :: 39 :: nil)
+  | None => False
+  end.
+Proof. vm_compute. repeat split. Qed.
